@@ -322,6 +322,15 @@ func c14W6(r *core.R) {
 			doneClauses[sel.done] = true
 		}
 	}
+	// any other select case that receives from the ordering's Done channel is the cancellation test in another spelling
+	// (`select { case <-o.ctx.Done(): return o.ctx.Err(); default: }` for `if o.ctx.Err() != nil`)
+	for _, n := range g.execNodes() {
+		if es, ok := n.ast.(*ast.ExprStmt); ok && c14SelectComm(n) && m.isDoneRecv(g, n.ctx, es.X, n) {
+			if cl, ok := n.ctx.fn.par[n.ast].(*ast.CommClause); ok {
+				doneClauses[cl] = true
+			}
+		}
+	}
 	if len(doneClauses) > 0 {
 		isDone := func(s *c14State, e c14Edge) bool { return e.sel != nil && doneClauses[e.sel] }
 		var starts []*c14State
